@@ -736,16 +736,31 @@ func checkSymbolCopyComplete(p *Prog, r *Report, rule string) {
 		}
 		k := NewKeyer(f)
 		eachInstr(f, func(i ssa.Instruction) {
-			cl, ok := i.(*ssa.Call)
-			if !ok {
-				return
-			}
-			bi, ok := cl.Call.Value.(*ssa.Builtin)
-			if !ok || bi.Name() != "append" {
-				return
-			}
-			sl, ok := cl.Type().Underlying().(*types.Slice)
-			if !ok || !strings.HasSuffix(sl.Elem().String(), "gosym.Sym") {
+			// either form of entering a symbol: dst = append(dst, gosym.Sym{…}) or dst[j] = gosym.Sym{…}
+			var cl ssa.Instruction
+			var entered, dstIdx ssa.Value
+			switch t := i.(type) {
+			case *ssa.Call:
+				bi, ok := t.Call.Value.(*ssa.Builtin)
+				if !ok || bi.Name() != "append" {
+					return
+				}
+				sl, ok := t.Type().Underlying().(*types.Slice)
+				if !ok || !strings.HasSuffix(sl.Elem().String(), "gosym.Sym") {
+					return
+				}
+				cl, entered = t, t.Call.Args[1]
+			case *ssa.Store:
+				ia, ok := t.Addr.(*ssa.IndexAddr)
+				if !ok {
+					return
+				}
+				sl, ok := ia.X.Type().Underlying().(*types.Slice)
+				if !ok || !strings.HasSuffix(sl.Elem().String(), "gosym.Sym") {
+					return
+				}
+				cl, entered, dstIdx = t, t.Val, ia.Index
+			default:
 				return
 			}
 			// the source list: what the appended value's fields are read from
@@ -790,11 +805,26 @@ func checkSymbolCopyComplete(p *Prog, r *Report, rule string) {
 					}
 				}
 			}
-			walk(cl.Call.Args[1], 0)
+			walk(entered, 0)
 			if srcIdx == nil {
 				return
 			}
 			n++
+			if dstIdx != nil {
+				// written at the position it was read from: no two symbols share a slot
+				a, b := map[string]int64{}, map[string]int64{}
+				var ca, cb int64
+				linForm(k, dstIdx, 1, a, &ca, 0)
+				linForm(k, srcIdx.Index, 1, b, &cb, 0)
+				same := ca == cb && len(a) == len(b)
+				for key, c := range a {
+					if b[key] != c {
+						same = false
+					}
+				}
+				r.Check(same, rule, "symbol stored at its own position in "+shortName(f), p.Pos(posOf(cl)), "destination index = source index",
+					"the loop that copies the executable's symbols stores an element at a position other than the one it was read from: symbols overwrite each other and some are reported as not found")
+			}
 			// the guard that lets the loop body run: idx - len(list) < 0 exactly
 			lenKey := "len(" + k.Key(srcIdx.X) + ")"
 			okBound := false
@@ -827,6 +857,11 @@ func checkSymbolCopyComplete(p *Prog, r *Report, rule string) {
 			}
 			first, step, okL := loopIndex(stripConstAdd(srcIdx.Index))
 			_ = first
+			if sl, ok := srcIdx.X.(*ssa.Slice); ok && (sl.Low != nil || sl.High != nil) {
+				if _, isArr := sl.X.Type().Underlying().(*types.Pointer); !isArr {
+					okBound = false // the list being copied is a part of the list that was read
+				}
+			}
 			r.Check(okBound && okL && step == 1, rule, "every symbol read is entered into the table in "+shortName(f), p.Pos(posOf(cl)), "the copying loop runs while index < len(list), step 1",
 				"the loop that copies the executable's symbols into the lookup table stops before the end of the list (or skips elements): symbols that are present in the binary are reported as not found")
 		})
